@@ -80,6 +80,78 @@ theorem getPeakFromFile_of_layout {b : Backend H} (ref : Nat → H) (size : Nat)
 theorem getFromFile_eq (b : Backend H) (pos : Nat) :
     b.getFromFile pos = if b.isCompacted pos then none else b.getPeakFromFile pos := rfl
 
+/-- **read law for `get_from_file`**: for a position outside the leaf set that `is_compacted`
+does not report as gone, `get_from_file` returns the reference hash -/
+theorem getFromFile_of_layout {b : Backend H} (ref : Nat → H) (size : Nat)
+    (hinv : b.pruneList.Inv) (hclean : b.hashFile.Clean)
+    (hlay : b.hashFile.disk = (layout b.pruneList.bitmap size).map ref)
+    (pos : Nat) (hpos : pos < size) (hl : b.leafSet.includes pos = false)
+    (hnc : b.isCompacted pos = false) :
+    b.getFromFile pos = some (ref pos) := by
+  rw [getFromFile_eq, hnc]
+  simp only [Bool.false_eq_true, if_false]
+  apply getPeakFromFile_of_layout ref size hinv hclean hlay pos hpos
+  rw [PruneList.isCompacted_iff hinv pos hl] at hnc
+  by_cases hr : b.pruneList.isPrunedRoot pos = true
+  · have hm : (1 + pos) ∈ b.pruneList.bitmap := contains_iff.1 hr
+    have := PruneList.root_not_compacted hinv (1 + pos) hm
+    simpa using this
+  · have hr' : b.pruneList.isPrunedRoot pos = false := by simpa using hr
+    simpa [hr'] using hnc
+
+/-- positions at or beyond the last pruned root are never compacted -/
+theorem not_compacted_of_ge_max {bm : Bitmap} (hs : Sorted bm) (q : Nat)
+    (hq : (Bm.maximum bm).getD 0 ≤ q + 1) : compactedP bm q = false := by
+  unfold compactedP
+  rw [List.any_eq_false]
+  intro x hx
+  have := le_maximum_of_sorted hs x hx
+  unfold interior; simp; omega
+
+theorem countP_range_split (p : Nat → Bool) (a n : Nat) (han : a ≤ n)
+    (h : ∀ q, a ≤ q → p q = false) : (List.range n).countP p = (List.range a).countP p := by
+  induction n with
+  | zero => have : a = 0 := by omega
+            subst this; rfl
+  | succ n ih =>
+    by_cases hn : a = n + 1
+    · subst hn; rfl
+    · rw [List.range_succ, List.countP_append, ih (by omega)]
+      simp [h n (by omega)]
+
+/-- **`unpruned_size` is the reference size**: hash-file length plus the total shift gives back
+the size of the unpruned MMR whenever the file holds exactly the surviving positions `< size` and
+every pruned root is a position of that MMR -/
+theorem unprunedSize_of_layout {b : Backend H} (size : Nat) (hinv : b.pruneList.Inv)
+    (hlen : b.hashFile.disk.length = (layout b.pruneList.bitmap size).length)
+    (hroots : ∀ x ∈ b.pruneList.bitmap, x ≤ size) : b.unprunedSize = size := by
+  unfold unprunedSize hashSize AOF.sizeInElmts PruneList.getTotalShift
+  rw [hlen]
+  have hlay : (layout b.pruneList.bitmap size).length + (List.range size).countP (compactedP b.pruneList.bitmap) = size := by
+    unfold layout
+    rw [← List.countP_eq_length_filter]
+    have := countP_not_add (compactedP b.pruneList.bitmap) (List.range size)
+    simpa using this
+  cases hm : Bm.maximum b.pruneList.bitmap with
+  | none =>
+    have hnil : b.pruneList.bitmap = [] := by
+      unfold Bm.maximum at hm; simpa using hm
+    have hz : b.pruneList.getShift (Option.getD none 1 - 1) = 0 := by
+      rw [PruneList.getShift_spec hinv, hnil]; rfl
+    have hc : (List.range size).countP (compactedP b.pruneList.bitmap) = 0 := by
+      rw [hnil]; simp [compactedP]
+    rw [hz]; omega
+  | some m =>
+    have hmem := maximum_mem hm
+    have hm1 := hinv.pos m hmem
+    have hms := hroots m hmem
+    have hnc := PruneList.root_not_compacted hinv m hmem
+    simp only [Option.getD_some]
+    rw [PruneList.getShift_counts hinv (m - 1) hnc]
+    rw [← countP_range_split (compactedP b.pruneList.bitmap) (m - 1) size (by omega)
+      (fun q hq => not_compacted_of_ge_max hinv.sorted q (by rw [hm]; simp; omega))]
+    exact hlay
+
 /-! ### reopen -/
 
 /-- **`sync` then drop + reopen is the identity** (fixed-size data file; the prune list satisfies
